@@ -502,16 +502,82 @@ def jobs(tier: str):
     for hostpart in ("h:99999", "h:8o8o", "[::1]:https"):  # an authority whose port is out of range / not a number
         out.append(dict(name=f"repr/bob@{hostpart}/pw2/invalid-port", kind="repr", user="bob", hostpart=hostpart, n=2, badport=True, weight=100))
     for op in ("include", "replace", "remove"):
-        for baseq in ("", "a=1", "b=2&a=1&a=3&c=", "x=%26&a=+", "a=0&a=1&a=2&b=3", "t=x&a=1&a=&p=1&a=z&a=y&s=up"):
+        for baseq in ("", "a=1", "b=2&a=1&a=3&c=", "x=%26&a=+", "a=0&a=1&a=2&b=3", "t=x&a=1&a=&p=1&a=z&a=y&s=up",
+                      "n=caf%C3%A9&a=1&m=%E2%82%AC+5"):  # percent-encoded non-ASCII text in parameters the helper does not touch
             for k in range(0, n + 1):
                 out.append(dict(name=f"query/{op}/{baseq or 'none'}/v{k}", kind="query", op=op, baseq=baseq, n=k))
         out.append(dict(name=f"query/{op}/b=2&a=1&a=3&c=/v1/after-earlier-helper-calls", kind="query", op=op, baseq="b=2&a=1&a=3&c=", n=1, earlier=True))
+    for iface in ("wsgi", "asgi"):
+        out.append(dict(name=f"request-subclass/{iface}/url-override-built-on-super", kind="subclass", iface=iface))
     out.append(dict(name="twin/replace", kind="replace", base=0, fields=["path"], n=1, twin=True))
     return out
 
 
+# ------------------------------------------------------------------ request.url through a user subclass (proxy-aware URL)
+def subclass_url(iface: str, port: int, proto: str):
+    """a Request subclass of the kind deployments behind a proxy write: url = super().url with scheme / host taken from forwarded headers"""
+    import baize.asgi.requests as AQ
+    import baize.wsgi.requests as WQ
+    from baize.utils import cached_property
+    Base = WQ.Request if iface == "wsgi" else AQ.Request
+
+    class ProxiedRequest(Base):
+        @cached_property
+        def url(self):
+            return super().url.replace(scheme=self.headers.get("x-forwarded-proto", "http"), hostname="shop.example", port=None)
+    if iface == "wsgi":
+        req = ProxiedRequest({"REQUEST_METHOD": "GET", "wsgi.url_scheme": "http", "SERVER_NAME": "10.0.0.5", "SERVER_PORT": str(port), "PATH_INFO": "/cart",
+                              "SCRIPT_NAME": "/app", "QUERY_STRING": "a=1", "HTTP_X_FORWARDED_PROTO": proto})
+    else:
+        req = ProxiedRequest({"type": "http", "method": "GET", "scheme": "http", "server": ("10.0.0.5", port), "path": "/cart", "root_path": "/app",
+                              "query_string": b"a=1", "headers": [(b"x-forwarded-proto", proto.encode())]})
+    first, second = req.url, req.url
+    return str(first), first is second
+
+
+def job_subclass(job) -> report.JobResult:
+    res = report.JobResult.new(job["name"])
+    twin = job.get("twin", False)
+    iface = job["iface"]
+    eng = Engine(budget_s=300)
+
+    def verdict(text, same_obj, port, proto):
+        want = f"{proto}://shop.example/app/cart?a=1"
+        if text != want:
+            raise Fail("subclass-url-not-the-override", f"{text!r}, the override returns {want!r}")
+        if not same_obj:
+            raise Fail("subclass-url-not-cached")
+
+    def fn():
+        e = cur()
+        port = [80, 8080][e.choose(2, "port")]
+        proto = ["https", "http"][e.choose(2, "proto")]
+        e.path_notes.update(port=port, proto=proto)
+        verdict(*subclass_url(iface, port, proto), port, proto)
+        if twin:
+            raise Fail("twin-assert-false")
+        return "ok"
+
+    def desc(m):
+        return {"iface": iface, "port": cur().path_notes.get("port"), "proto": cur().path_notes.get("proto")}
+
+    def concrete(w):
+        prev = Engine.cur
+        Engine.cur = None
+        try:
+            verdict(*subclass_url(w["iface"], w["port"], w["proto"]), w["port"], w["proto"])
+            return None
+        except Fail as f:
+            return f"{f.klass}: {f.detail}"
+        except Exception as ex:  # noqa: BLE001
+            return f"exception {type(ex).__name__}: {ex}"
+        finally:
+            Engine.cur = prev
+    return _run(res, job, eng, fn, desc, concrete, twin)
+
+
 def run_job(job):
-    return {"build": job_build, "replace": job_replace, "repr": job_repr, "query": job_query}[job["kind"]](job)
+    return {"build": job_build, "replace": job_replace, "repr": job_repr, "query": job_query, "subclass": job_subclass}[job["kind"]](job)
 
 
 def replay(rec) -> int:
